@@ -31,3 +31,21 @@ macro_rules! debug_assert_eq { ($a:expr, $b:expr $(, $($rest:tt)*)?) => { vasser
 macro_rules! debug_assert_ne { ($a:expr, $b:expr $(, $($rest:tt)*)?) => { vassert($a != $b) } }
 macro_rules! unreachable { ($($rest:tt)*) => { vunreachable() } }
 
+// ---- must-panic variants (thorough tier, C05/C12): `expect` / `assert!` return only when they do not panic ----
+#[verifier::external_body]
+pub fn expect_mp<T, E>(r: Result<T, E>) -> (v: T)
+    ensures
+        r is Ok,
+        r->Ok_0 == v,
+{
+    unimplemented!()
+}
+
+#[verifier::external_body]
+pub fn vassert_mp(c: bool)
+    ensures
+        c,
+{
+    unimplemented!()
+}
+
